@@ -15,12 +15,12 @@ COQ_RSTATE = {"lookup": "SLookup", "pass": "SPass", "hash": "SHash", "error": "S
               "deliver": "SDeliver", "fetch": "SFetch", "deliver_stale": "SDeliverStale",
               "hit_for_pass": "SHitForPass", "end": "SEnd", "other": "SOther"}
 # the order of Base/SMBase.v all_actions
-ACTION_ORDER = ["none", "bare", "errstmt", "restartstmt", "fail"] + ["r-" + s for s in S.RSTATES]
+ACTION_ORDER = ["none", "bare", "errstmt", "restartstmt", "fail", "absent"] + ["r-" + s for s in S.RSTATES]
 
 
 def coq_action(a):
     return {"none": "ANone", "bare": "ABare", "errstmt": "AErrorStmt", "restartstmt": "ARestartStmt",
-            "fail": "AFail"}.get(a) or "(ARet %s)" % COQ_RSTATE[a[2:]]
+            "fail": "AFail", "absent": "AAbsent"}.get(a) or "(ARet %s)" % COQ_RSTATE[a[2:]]
 
 
 def scope_of(n):
@@ -36,22 +36,41 @@ def edge_case(n, a, at_limit, warm):
     elif n == "error":
         lead = "errstmt"
     acts = {sc: ["none"] * 4 for sc in S.SCOPES}
-    acts["recv"] = (["r-restart"] * r + [lead] * (4 - r)) if at_limit else [lead] * 4
     sc = scope_of(n)
-    col = list(acts[sc])
-    col[r] = a
-    acts[sc] = col
+    if a == "absent":
+        # the subroutine under test is not defined at all; req.restarts is driven up by vcl_deliver when
+        # the subroutine is vcl_recv (lookup, miss/hit, fetch, deliver -> restart), by vcl_recv otherwise
+        acts[sc] = list(S.ABSENT)
+        if at_limit:
+            if sc == "recv":
+                acts["deliver"] = ["r-restart"] * r + ["none"] * (4 - r)
+            else:
+                acts["recv"] = ["r-restart"] * r + [lead] * (4 - r)
+        elif sc != "recv":
+            acts["recv"] = [lead] * 4
+    else:
+        acts["recv"] = (["r-restart"] * r + [lead] * (4 - r)) if at_limit else [lead] * 4
+        col = list(acts[sc])
+        col[r] = a
+        acts[sc] = col
     v0 = S.plain_variant(acts)
+    warmv = S.plain_variant({sc: list(S.ABSENT)}) if a == "absent" else S.plain_variant()
     if warm:
-        return [v0, S.plain_variant()], [{"path": "/e", "v": 1}, {"path": "/e", "v": 0}], 1, r
+        return [v0, warmv], [{"path": "/e", "v": 1}, {"path": "/e", "v": 0}], 1, r
     return [v0], [{"path": "/e", "v": 0}], 0, r
 
 
-def outcome_of(res, n, r):
-    """what ran after the first vcl_<scope(n)> with req.restarts = r"""
+def outcome_of(res, n, r, absent_pos=None):
+    """what ran after the first vcl_<scope(n)> with req.restarts = r; for a subroutine that is not defined
+    `absent_pos` is the position it has in the flow of the same program with the subroutine defined and
+    empty: what stands there now is what ran next"""
     if res.get("panic"):
         return None
     flows = [f[4:] for f in (res.get("flows") or [])]
+    if absent_pos is not None:
+        if absent_pos < len(flows):
+            return ("go", flows[absent_pos])
+        return ("err",) if res.get("error") else ("end",)
     rr = -1
     for i, sc in enumerate(flows):
         if sc == "recv":
@@ -60,6 +79,17 @@ def outcome_of(res, n, r):
             if i + 1 < len(flows):
                 return ("go", flows[i + 1])
             return ("err",) if res.get("error") else ("end",)
+    return None
+
+
+def position_of(res, n, r):
+    flows = [f[4:] for f in (res.get("flows") or [])]
+    rr = -1
+    for i, sc in enumerate(flows):
+        if sc == "recv":
+            rr += 1
+        if sc == scope_of(n) and rr == r:
+            return i
     return None
 
 
@@ -75,14 +105,38 @@ def observe_edges():
                     _, ireq, _ = S.model_request(vs, rq)
                     cells.append((n, a, lim, warm, idx, r))
                     reqs.append(ireq)
+                    if a == "absent":
+                        # reference run: the same program with the subroutine defined and empty
+                        for v in vs:
+                            v["acts"][scope_of(n)] = ["none"] * 4
+                        _, ireq2, _ = S.model_request(vs, rq)
+                        cells.append((n, "absent-ref", lim, warm, idx, r))
+                        reqs.append(ireq2)
     rep = V.run_batch(impl, reqs, hang_s=30)
     table = {}
+    pending = None
     for (n, a, lim, warm, idx, r), out in zip(cells, rep):
-        o = None
         try:
-            o = outcome_of(json.loads(out)["res"][idx], n, r)
+            res = json.loads(out)["res"][idx]
         except (ValueError, KeyError, IndexError, TypeError):
-            pass
+            res = None
+        if a == "absent":
+            pending = (res, out)
+            continue
+        if a == "absent-ref":
+            ares, aout = pending
+            o = None
+            pos = position_of(res, n, r) if res else None
+            if pos is not None and ares is not None:
+                # nothing but the entries of the undefined subroutine may differ before that position
+                ref = [f[4:] for f in (res.get("flows") or [])]
+                got = [f[4:] for f in (ares.get("flows") or [])]
+                before = [x for x in ref[:pos] if x != scope_of(n)]
+                if got[:len(before)] == before:
+                    o = outcome_of(ares, n, r, absent_pos=len(before))
+            table.setdefault((n, "absent", lim), []).append((warm, o, aout if o is None else None))
+            continue
+        o = outcome_of(res, n, r) if res else None
         table.setdefault((n, a, lim), []).append((warm, o, out if o is None else None))
     return table, len(reqs)
 
